@@ -1452,6 +1452,36 @@ theorem legacy_history_route (d : Doc) (ks : List Key) (before later : List Req)
   · rw [history_copy_nth, h1]
   · rw [history_copy_store_unchanged]; exact h2
 
+/-- the copy is needed: with the write made in place, whenever two requests are answered by the same stored route and the
+    second write changes what the first wrote (another method, another server), the route the first caller holds reads
+    differently after the second call than when it was returned -/
+theorem history_in_place_changes (find : Req → Option Pick) (st : Store) (r1 r2 : Req) (p1 p2 : Pick) (v : RFields)
+    (h1 : find r1 = some p1) (h2 : find r2 = some p2) (hi : p2.idx = p1.idx) (hv : st[p1.idx]? = some v)
+    (hne : p2.apply (p1.apply v) ≠ p1.apply v) :
+    let a := stepInPlace find st r1
+    let b := stepInPlace find a.1 r2
+    a.2 = some (.stored p1.idx) ∧ observe a.1 (.stored p1.idx) = some (p1.apply v) ∧
+      observe b.1 (.stored p1.idx) = some (p2.apply (p1.apply v)) ∧
+      observe b.1 (.stored p1.idx) ≠ observe a.1 (.stored p1.idx) := by
+  have hlt : p1.idx < st.length := by
+    rcases Nat.lt_or_ge p1.idx st.length with h | h
+    · exact h
+    · rw [List.getElem?_eq_none h] at hv; cases hv
+  have ha : stepInPlace find st r1 = (st.set p1.idx (p1.apply v), some (.stored p1.idx)) := by
+    simp [stepInPlace, h1, hv]
+  have hget : (st.set p1.idx (p1.apply v))[p1.idx]? = some (p1.apply v) := by
+    simp [hlt]
+  have hb : stepInPlace find (st.set p1.idx (p1.apply v)) r2 =
+      ((st.set p1.idx (p1.apply v)).set p1.idx (p2.apply (p1.apply v)), some (.stored p1.idx)) := by
+    simp [stepInPlace, h2, hi, hget]
+  simp only [ha, hb, observe, hget]
+  have hget2 : ((st.set p1.idx (p1.apply v)).set p1.idx (p2.apply (p1.apply v)))[p1.idx]? = some (p2.apply (p1.apply v)) := by
+    simp [hlt]
+  rw [hget2]
+  refine ⟨trivial, trivial, rfl, ?_⟩
+  intro h
+  exact hne (Option.some.inj h)
+
 open W in
 /-- witness for the class the copy protects against (seeded change C09-r3m2 and its twins): with the write made in place,
     the route returned for GET reads POST after the next call -/
@@ -1483,5 +1513,14 @@ example :
      h.2.all (fun o => match o with | some (.stored _) => true | _ => false) = true ∧
      h.2.map (fun o => o.bind (observe h.1)) = [some ⟨s "/a/{x}", get, .none⟩, some ⟨s "/a/{x}", get, .none⟩]) := by
   decide +kernel
+
+open W in
+/-- the hypotheses of `history_in_place_changes` hold for GET then POST on one stored route, and for one template asked
+    through two servers (the write of Server) -/
+example :
+    (⟨0, some post, none⟩ : Pick).apply ((⟨0, some get, none⟩ : Pick).apply ⟨s "/a", [], .doc 0⟩) ≠
+      (⟨0, some get, none⟩ : Pick).apply ⟨s "/a", [], .doc 0⟩ ∧
+    (⟨0, none, some (.doc 1)⟩ : Pick).apply ((⟨0, none, some (.doc 0)⟩ : Pick).apply ⟨s "/a", get, .none⟩) ≠
+      (⟨0, none, some (.doc 0)⟩ : Pick).apply ⟨s "/a", get, .none⟩ := by decide +kernel
 
 end KinModel.Props.C09
